@@ -51,15 +51,17 @@ def differential(ctx, kind, exe, model, count):
 
 def block_stage(ctx, exe, count):
     """Whole blocks through the real Scheduler (parallel and forced-sequential) vs in-order stock revm."""
-    rc, out = core.sh([exe, "block", str(ctx.seed), str(count), ctx.work], timeout=180 if ctx.quick else 1500)
+    rc, out = core.sh([exe, "block", str(ctx.seed), str(count), ctx.work], timeout=900 if ctx.quick else 3000)
     if rc not in (0, 124):
         raise RuntimeError("ben block harness failed: " + out[-2000:])
     cases = open(os.path.join(ctx.work, "ben_block.in")).read().splitlines()
     impl = open(os.path.join(ctx.work, "ben_block.impl")).read().splitlines()
+    # a block on which the scheduler does not return is reported by the harness itself (no case
+    # finished for 60 s: last result line " X:scheduler-did-not-return-on-this-block", one more input
+    # line than results before it). The overall limit only truncates the sample on a slow machine.
+    cases = cases[:len(impl)]
     if rc == 124:
-        # the harness writes a case before running it: the first case without a result never returned
-        cases = cases[:len(impl) + 1]
-        impl = impl + [" X:scheduler-did-not-return-on-this-block"]
+        core.log("C07 block stage: time limit reached after %d of %d blocks; the sample is truncated" % (len(impl), count))
     roles, specs = collections.Counter(), collections.Counter()
     names = ["absent", "near-overflow", "existing-empty", "sender", "recipient", "contract-with-storage",
              "self-destructs", "forwarder", "plain-miner"]
